@@ -51,8 +51,10 @@ ATOMS = {
     'E': (U.E, _inst(U.E)),
     'N': (U.N, _inst(int)),
     'IE': (U.IE, _inst(U.IE)),
-    'NL': (U.NL, lambda x, tower=False: isinstance(x, list) and all(isinstance(i, int) for i in x)),
-    'TL': (U.TL, lambda x, tower=False: isinstance(x, list) and all(isinstance(i, int) for i in x)),
+    'NL': (U.NL, lambda x, tower=False: isinstance(x, list) and all(isinstance(i, int) for i in x),
+           lambda x, tower=False: isinstance(x, list) and (not x or any(isinstance(i, int) for i in x))),
+    'TL': (U.TL, lambda x, tower=False: isinstance(x, list) and all(isinstance(i, int) for i in x),
+           lambda x, tower=False: isinstance(x, list) and (not x or any(isinstance(i, int) for i in x))),
     'TU': (U.TU, _inst(int, str)),
     'DupA': (U.DupA, _inst(U.DupA)),
     'DupB': (U.DupB, _inst(U.DupB)),
@@ -66,11 +68,51 @@ ATOMS = {
     'P': (U.P, lambda x, tower=False: isinstance(x, U.P)),
     'G': (U.G, _inst(U.G)),
     'GL': (U.GL, _inst(U.GL)),
+    # hint kinds that beartype reduces to shallower checks: (hint, published meaning[, weakest reading])
+    'Hashable': (cabc.Hashable, _inst(cabc.Hashable)),
+    'Sized': (typing.Sized, _inst(cabc.Sized)),
+    'Callable_': (cabc.Callable, lambda x, tower=False: callable(x)),
+    'LStr': (typing.LiteralString, _inst(str)),
+    'SupportsInt': (typing.SupportsInt, _inst(typing.SupportsInt)),
+    'AnyStr': (typing.AnyStr, _inst(str, bytes)),
+    'PatS': (U.PatS, lambda x, tower=False: isinstance(x, U.re.Pattern) and isinstance(x.pattern, str), _inst(U.re.Pattern)),
+    'MatS': (U.MatS, lambda x, tower=False: isinstance(x, U.re.Match) and isinstance(x.string, str), _inst(U.re.Match)),
+    'TD': (U.TD, lambda x, tower=False: isinstance(x, dict) and set(x) == {'a', 'b'} and isinstance(x['a'], int) and isinstance(x['b'], str),
+           _inst(cabc.Mapping)),
+    'TDo': (U.TDo, lambda x, tower=False: isinstance(x, dict) and set(x) <= {'a'} and all(isinstance(v, int) for v in x.values()), _inst(cabc.Mapping)),
+    'NT': (U.NT, lambda x, tower=False: isinstance(x, U.NT) and isinstance(x.a, int) and isinstance(x.b, str), _inst(U.NT)),
+    'DC': (U.DC, _inst(U.DC)),
+    'GenI': (U.GenI, _inst(cabc.Generator)),
+    'CtxI': (U.CtxI, _inst(U.contextlib.AbstractContextManager)),
+    'PathS': (U.PathS, _inst(U.pathlib.PurePath)),
+    'AL': (U.AL, _inst(int, str)),
+    'ALgi': (U.ALgi, lambda x, tower=False: x is None or (isinstance(x, list) and all(isinstance(i, int) for i in x)),
+             lambda x, tower=False: x is None or (isinstance(x, list) and (not x or any(isinstance(i, int) for i in x)))),
+    'ALr': (U.ALr, lambda x, tower=False: _alr(x, all), lambda x, tower=False: _alr(x, _some)),
+    'Type_': (typing.Type, _inst(type)),
+    'Tuple_': (typing.Tuple, _inst(tuple)),
+    'List_': (typing.List, _inst(list)),
+    'Dict_': (typing.Dict, _inst(dict)),
+    'TupU': (U.TupU, lambda x, tower=False: isinstance(x, tuple) and len(x) >= 1 and isinstance(x[0], int) and all(isinstance(i, str) for i in x[1:]),
+             _inst(tuple)),
+    'TupUU': (U.TupUU, lambda x, tower=False: isinstance(x, tuple) and len(x) == 2 and isinstance(x[0], int) and isinstance(x[1], str)),
+    'InitI': (U.InitI, _inst(int)),
+    'FinI': (U.FinI, _inst(int)),
     'list_': (list, _inst(list)),      # unsubscripted builtin containers as plain classes
     'dict_': (dict, _inst(dict)),
     'tuple_': (tuple, _inst(tuple)),
 }
+def _alr(x, quant, depth=0):
+    """type ALr = int | list[ALr]"""
+    if isinstance(x, int):
+        return True
+    return isinstance(x, list) and depth < 50 and quant(_alr(i, quant, depth + 1) for i in x)
+
+
 ATOM_SRC = {
+    'Hashable': 'cabc.Hashable', 'Sized': 'typing.Sized', 'Callable_': 'cabc.Callable', 'LStr': 'typing.LiteralString',
+    'SupportsInt': 'typing.SupportsInt', 'AnyStr': 'typing.AnyStr', 'Type_': 'typing.Type', 'Tuple_': 'typing.Tuple', 'List_': 'typing.List',
+    'Dict_': 'typing.Dict',
     'none': 'None', 'NoneType': 'type(None)', 'any': 'typing.Any', 'list_': 'list', 'dict_': 'dict', 'tuple_': 'tuple',
 }
 # atoms whose hint object is a class usable under type[...] (maps to the class for issubclass)
@@ -275,7 +317,7 @@ def has_sampling(t) -> bool:
     (sequence-like or quasi-iterable)?  Used only for the 'at most one draw' count (C02/O4)."""
     tag = t[0]
     if tag == 'a':
-        return t[1] in ('NL', 'TL')
+        return t[1] in ('NL', 'TL', 'ALgi', 'ALr')
     if tag == 'lit':
         return False
     if tag == 'u':
@@ -330,7 +372,8 @@ def _type_ok(t, x) -> bool:
 def _sat(t, x, full: bool, tower: bool) -> bool:
     tag = t[0]
     if tag == 'a':
-        return ATOMS[t[1]][1](x, tower)
+        e = ATOMS[t[1]]
+        return (e[1] if full or len(e) < 3 else e[2])(x, tower)
     if tag == 'u':
         for m in t[2:]:
             if _sat(m, x, full, tower):
